@@ -24,7 +24,8 @@ THEOREMS = ["C02_gauss_loop_is_bin_average", "C02_lorentz_loop_is_bin_integral",
             "C02_stark_integral_partial", "C02_zero_width_adds_nothing", "C02_quadrature_cache_row",
             "C02_samples_integral", "C02_range_ordered", "C02_gauss_whole_radiance", "C02_stark_whole_radiance_partial",
             "C02_samples_pi_plus_sigma", "C02_component_order_irrelevant", "C02_polarisation_setter_history",
-            "C02_validation_sound"]
+            "C02_validation_sound", "C02_erf_truncation_constant_R", "C02_gauss_whole_radiance_R",
+            "C02_stark_normalisation_constant_R"]
 
 CLASSES = ["GaussianLine", "MultipletLineShape", "ZeemanTriplet", "ParametrisedZeemanTriplet", "ZeemanMultiplet",
            "StarkBroadenedLine", "BeamEmissionMultiplet"]
@@ -81,13 +82,20 @@ def read_model_constants():
     return out
 
 
-def tie_text(mc):
+def tie_text(mc, stark_c):
     ql = lambda l: "[" + "; ".join(qlit(v) for v in l) + "]"
+    return _tie_text(mc, ql).replace("Open Scope Q_scope.\n", "Open Scope Q_scope.\nDefinition STARKC : Q := %s.\n" % qlit(stark_c), 1)
+
+
+def _tie_text(mc, ql):
     return ("Require Import Cherab.Common.Qx Cherab.Model.C02_LineShape Cherab.Model.C02_Check.\nOpen Scope Q_scope.\n"
             "(* the constants inside the model are those of the current source *)\n"
             "Lemma source_constants_tie :\n  (Qeq_bool cutoff_sigma %s && Qeq_bool lorentz_cutoff %s && Qeq_bool stark_splitting_factor %s\n"
             "   && Qeq_bool stark_l2t_low %s && Qeq_bool stark_l2t_high %s\n"
             "   && qlist_eqb poly_gauss %s\n   && qlist_eqb poly_lorentz %s\n   && qlist_eqb poly_weight %s) = true.\n"
+            "Proof. vm_compute. reflexivity. Qed.\n"
+            "(* the implementation's STARK_NORM_COEFFICIENT lies in the bracket certified by C02_stark_normalisation_constant_R *)\n"
+            "Lemma stark_norm_coefficient_tie : (Qle_bool (2641279470 # 1000000000) STARKC && Qle_bool STARKC (2641279472 # 1000000000)) = true.\n"
             "Proof. vm_compute. reflexivity. Qed.\n" % (
                 qlit(mc["cutoff_sigma"]), qlit(mc["lorentz_cutoff"]), qlit(mc["stark_splitting_factor"]), qlit(mc["stark_l2t_low"]),
                 qlit(mc["stark_l2t_high"]), ql(mc["poly_gauss"]), ql(mc["poly_lorentz"]), ql(mc["poly_weight"])))
@@ -444,6 +452,22 @@ def coq_comps(c, m, T="T"):
     raise ValueError(cls)
 
 
+def coq_keys(c, m, T):
+    """Coq term: the oracle keys of levels 1-2 computed by Coq from the inputs are present in the tables"""
+    cls = c["cls"]
+    tag = {"GaussianLine": "KGauss", "MultipletLineShape": "KGauss", "ZeemanTriplet": "KZeeman", "ZeemanMultiplet": "KZeemanM"}.get(cls)
+    if cls == "ParametrisedZeemanTriplet":
+        tag = "(KParam %s %s)" % (qlit(c["abg"][1]), qlit(c["abg"][2]))
+    elif cls == "StarkBroadenedLine":
+        tag = "(KStark %s %s %s %s)" % (qlit(c["stark"][1]), qlit(c["stark"][2]), qlit(c["ne"]), qlit(c["te"]))
+    elif cls == "BeamEmissionMultiplet":
+        tag = "(KMse %s %s %s)" % (qlit(c["benergy"]), qlit(c["btemp"]), qv(c["bdir"]))
+    if tag is None:
+        return "true"
+    return "keys_ok %s K %s %s %s %s %s %s %s %s" % (T, tag, qlit(c["w"]), qlit(m), qlit(c["ts"]), qlit(c["ne"]), qlit(c["te"]),
+                                                   qv(c["dir"]), qv(c["b"]))
+
+
 def qlist(xs):
     return "[" + "; ".join(qlit(x) for x in xs) + "]"
 
@@ -504,6 +528,39 @@ def gen_forms(rng, cls):
 
 def mzero(rng):
     return rng.choice([0.0, -0.0])
+
+
+def force_degenerate(rng, c, kind):
+    """the degenerate field geometries every run must contain for every class, with a line that really lands in the window:
+    B = 0, B parallel / perpendicular to the line of sight, and for the beam model B parallel to the beam (no Stark
+    splitting, all nine components coincide)"""
+    c["zero_width"] = False
+    if c["ts"] <= 0:
+        c["ts"] = 4.0
+    if c["R"] == 0:
+        c["R"] = 1.0
+    if not c["ne"] > 0:
+        c["ne"] = 2.0 ** 64
+    if not c["te"] > 0:
+        c["te"] = 8.0
+    d = c["dir"]
+    if kind == "zero":
+        c["b"] = [0.0, 0.0, 0.0]
+    elif kind == "parallel":
+        c["b"] = [2.0 * t for t in d]
+    elif kind == "perp":
+        o = [d[1], -d[0], 0.0] if (d[0] or d[1]) else [0.0, d[2], -d[1]]
+        c["b"] = [2.0 * t for t in o]
+    elif kind == "beam_parallel":
+        c["b"] = [-1.5 * t for t in c["bdir"]]
+    c["b_kind"] = kind
+    if c["cls"] == "BeamEmissionMultiplet":
+        c["btemp"] = max(c["ts"], 0.0)
+    if "stark_kind" in c:
+        c["stark_kind"] = "mixed"          # bounds the number of bins (both widths are now non-zero)
+    eval_zs(c)
+    c["force_window"] = "spans"
+    return c
 
 
 def gen_physics(rng, cls, exact, impl):
@@ -825,7 +882,7 @@ def gen_window(rng, c, comps, exact, quick):
         centre = c.get("lam", c.get("w", 500.0))
         lo, hi, width = centre - 0.5, centre + 0.5, 0.05
     span = hi - lo
-    kind = rng.choice(WINDOW_KINDS)
+    kind = c.pop("force_window", None) or rng.choice(WINDOW_KINDS)
     maxbins = 40 if quick else 160
     ncomp = max(1, len(comps))
     mixed_stark = c.get("stark_kind") == "mixed"
@@ -1167,6 +1224,75 @@ def coq_str(s_):
     return '"' + s_.replace('"', '""') + '"%string'
 
 
+def gq_lorentz_cases(impl, rng, n, K, s2f):
+    """add_lorentzian_line with an explicit GaussianQuadrature(max_order <= 16): the bin integrals are COMPUTED in Coq by the
+    model of the adaptive Gauss-Legendre loop over the model of StarkFunction (pow is the only oracle).  The walk below only
+    learns the pow arguments and how far the stopping test is from a tie (cases closer than 1e-6 are skipped as ambiguous)."""
+    from scipy.special import roots_legendre
+    from fractions import Fraction as Fr
+    normc = float(impl.StarkFunction.STARK_NORM_COEFFICIENT)
+    texts, metas, skipped = [], [], 0
+    for k in range(n):
+        mn, mx = rng.choice([1, 1, 2, 3]), rng.choice([8, 12, 16])
+        rtol = rng.choice([1e-5, 1e-7])
+        q = impl.GaussianQuadrature(relative_tolerance=rtol, max_order=mx, min_order=mn)
+        if rng.random() < 0.5:                        # through the setters as well
+            q.max_order = mx
+            q.min_order = mn
+        roots, weights = [], []
+        for order in range(mn, mx + 1):
+            r_, w_ = roots_legendre(order)
+            roots += [float(v) for v in r_]
+            weights += [float(v) for v in w_]
+        fw = 2.0 ** rng.randint(-5, 0) if rng.random() > 0.1 else rng.choice([0.0, -0.25])
+        lam = float(rng.randint(300, 900)) + dyadic(rng, 0, 1, 4)
+        bins = rng.choice([1, 1, 2])
+        dl = (abs(fw) or 0.25) / rng.choice([1, 2, 4])
+        gmin = lam + dl * rng.randint(-3, 1)
+        c = {"cls": "direct_lorentz", "lam": lam, "sig": fw, "gmin": gmin, "gmax": gmin + dl * bins, "bins": bins,
+             "R": dyadic(rng, 0.5, 64, 4), "gq": [rtol, mx, mn]}
+        s_ = impl.spectrum(c)
+        c["delta"] = float(s_.delta_wavelength)
+        s_ = impl.add_lorentzian_line(c["R"], lam, fw, s_, q)
+        out = [float(v) for v in s_.samples]
+        # walk: pow keys and the margin of every stopping test
+        T = orc.Tabs()
+        margin = 1.0
+        if fw > 0:
+            F_lam, F_w, F_c = fr(lam), fr(fw), fr(normc)
+            norm = T.pow(F_w / 2, Fr(3, 2)) / F_c
+            a25 = T.pow(F_w / 2, Fr(5, 2))
+            g = orc.Grid(c["gmin"], c["gmax"], bins, c["delta"])
+            cl, cu = F_lam - 50 * F_w, F_lam + 50 * F_w
+            st = max(0, math.floor((cl - g.gmin) / g.delta))
+            en = min(bins, math.ceil((cu - g.gmin) / g.delta))
+            for i in range(st, en):
+                a_, b_ = g.edge(i), g.edge(i + 1)
+                cc, dd = Fr(1, 2) * (a_ + b_), Fr(1, 2) * (b_ - a_)
+                old, ib = None, 0
+                for order in range(mn, mx + 1):
+                    acc = Fr(0)
+                    for j in range(ib, ib + order):
+                        x = cc + dd * fr(roots[j])
+                        acc += fr(weights[j]) * (norm / (T.pow(abs(x - F_lam), Fr(5, 2)) + a25))
+                    new = acc * dd
+                    if old is not None:
+                        err, lim = abs(new - old), fr(rtol) * abs(new)
+                        if lim > 0:
+                            margin = min(margin, float(abs(err - lim) / lim))
+                        if err < lim:
+                            break
+                    old, ib = new, ib + order
+        if margin < 1e-6:
+            skipped += 1
+            continue
+        texts.append("check_lorentz_gq %s %s %s %s %d %d %s %s %s %s {| gmin := %s; gmax := %s; gbins := %s; gdelta := %s |} %s %s" % (
+            orc.tabs_text(T), qlit(normc), qlist(roots), qlist(weights), mn, mx, qlit(rtol), qlit(c["R"]), qlit(lam), qlit(fw),
+            qlit(c["gmin"]), qlit(c["gmax"]), zlit(bins), qlit(c["delta"]), qlist([0.0] * bins), qlist(out)))
+        metas.append(c)
+    return texts, metas, skipped
+
+
 def stark_coarse_probe(impl, quick):
     """StarkBroadenedLine (default integrator) with no Doppler part, window spanning +-60 FWHM: integral / R for bins of
     1 .. 200 FWHM and several alignments of the line inside its bin"""
@@ -1202,7 +1328,8 @@ def case_text(idx, c, m, T, comps_for_tabs, out, K, sqrt2):
              "Definition g%d : grid := {| gmin := %s; gmax := %s; gbins := %s; gdelta := %s |}." % (
                  idx, qlit(c["gmin"]), qlit(c["gmax"]), zlit(c["bins"]), qlit(c["delta"])),
              "Definition r%d : Q := Eval vm_compute in (run_usage T%d sqrt2 %s (%s) g%d %s %s)." % (
-                 idx, idx, qlit(c["R"]), coq_comps(c, m, "T%d" % idx), idx, qlist(smp0), qlist(out))]
+                 idx, idx, qlit(c["R"]), coq_comps(c, m, "T%d" % idx), idx, qlist(smp0), qlist(out)),
+             "Definition k%d : bool := Eval vm_compute in (%s)." % (idx, coq_keys(c, m, "T%d" % idx))]
     return "\n".join(lines)
 
 
@@ -1228,6 +1355,10 @@ def support_margin_ok(c):
 def run(ctx):
     ctx.trusted += [
         "Coq 8.16.1 kernel, vm_compute (no native_compute)",
+        "three theorems over R (C02_erf_truncation_constant_R, C02_gauss_whole_radiance_R, C02_stark_normalisation_constant_R) rest on "
+        "the standard library's classical real numbers (ClassicalDedekindReals.sig_forall_dec, sig_not_dec, Classical_Prop.classic, "
+        "FunctionalExtensionality.functional_extensionality_dep), on Coquelicot (RInt) and on the Interval tactics, whose "
+        "computations use the primitive 63-bit integers (PrimInt63.*, Uint63.* specifications); all other theorems are closed",
         "harness/c02.py + c02_oracle.py: generators, scene construction (bare Plasma/Beam + Maxwellian distributions), "
         "Q literal printer, comparator and tolerances in Model/C02_Check.v",
         "oracle tables: libm erf/sqrt/pow/log/exp evaluated by CPython at the exact arguments the Coq model asks for "
@@ -1242,14 +1373,32 @@ def run(ctx):
         "int casts of floor/ceil results fit a C int; spectrum.delta_wavelength > 0",
     ]
     ctx.rebuild()
-    ctx.proofs("Properties.C02", THEOREMS, extra_modules=("Model.C02_LineShape", "Model.C02_Quadrature", "Proofs.C02_Gauss", "Proofs.C02_Norm", "Proofs.C02_Weights",
-                              "Proofs.C02_Quadrature", "Model.C02_Policy", "Proofs.C02_Policy", "Proofs.C02_Sums", "Model.C02_Check"))
+    ctx.proofs("Properties.C02", [t for t in THEOREMS if not t.endswith("_R")], extra_modules=("Model.C02_LineShape", "Model.C02_Quadrature", "Proofs.C02_Gauss", "Proofs.C02_Norm", "Proofs.C02_Weights",
+                              "Proofs.C02_Quadrature", "Model.C02_Policy", "Proofs.C02_Policy", "Proofs.C02_Sums", "Proofs.C02_Real", "Properties.C02_R", "Model.C02_Check"))
 
+    # The three theorems over R live in Properties/C02_R.v (same rules as Properties/C02.v).  The independent checker coqchk
+    # (thorough tier, run by ctx.proofs on Properties/C02.v) is NOT run on that file: re-checking Coquelicot, Interval and
+    # Flocq takes more than 50 minutes; the kernel checked them when the file was built.
+    # Print Assumptions of the three theorems over R walks Coquelicot and Interval (~40 CPU-s): it runs in the background
+    # while the cases are generated and is collected before the Coq files are compiled
+    import threading
+    from common import coqc as _coqc
+    r_theorems = [t for t in THEOREMS if t.endswith("_R")]
+    r_result = {}
+
+    def _r_job(t):
+        path = ctx.write_gen("assumptions_%s.v" % t, "Require Import Cherab.Properties.C02_R.\n"
+                             'Goal True. idtac "@@THEOREM %s". exact I. Qed.\nCheck %s.\nPrint Assumptions %s.\n' % (t, t, t))
+        r_result[t] = _coqc(path, timeout=1500)
+    r_threads = [threading.Thread(target=_r_job, args=(t,)) for t in r_theorems]
+    for th in r_threads:
+        th.start()
     # ---- (T) the constants the model contains, regenerated from the current source; the kernel re-checks the tie lemma ----
     from common import coqc
     mc = read_model_constants()
-    ok_tie, out_tie = coqc(ctx.write_gen("Tie.v", tie_text(mc)), timeout=300)
-    ctx.obligation("Gen/C02/Tie.v source_constants_tie (cut-offs, splitting factor, thresholds, 3 coefficient lists)", "tie", ok_tie, out_tie)
+    from cherab.core.model.lineshape.stark import StarkFunction as _SF
+    ok_tie, out_tie = coqc(ctx.write_gen("Tie.v", tie_text(mc, float(_SF.STARK_NORM_COEFFICIENT))), timeout=300)
+    ctx.obligation("Gen/C02/Tie.v source_constants_tie (cut-offs, splitting factor, thresholds, 3 coefficient lists) + stark_norm_coefficient_tie", "tie", ok_tie, out_tie)
     if not ok_tie:
         ctx.violation("c02:source-constants", "a constant of the line-shape code (cut-off, Stark splitting factor, weight threshold or "
                       "polynomial coefficient) differs from the one the model and its theorems use",
@@ -1265,9 +1414,9 @@ def run(ctx):
     rng = ctx.rng
     quick = ctx.quick
 
-    n_class = 20 if quick else 400          # per class
-    n_direct = 60 if quick else 700
-    n_support = 120 if quick else 1500
+    n_class = 14 if quick else 400          # per class
+    n_direct = 40 if quick else 700
+    n_support = 80 if quick else 1500
     cases = []
     dist = {"class": {}, "window": {}, "b_kind": {}, "pol": {}, "zero_width": 0, "R_zero": 0, "prefilled": 0,
             "exact_stream": 0, "bins": {}, "components": {}, "active_components": {}}
@@ -1299,9 +1448,12 @@ def run(ctx):
                 W = orc.Walk(T, K, fr(s2f))
                 comps = walk_case(W, c, m)
             else:
-                exact = (k % 3 != 0)
+                exact = (k % 3 != 0) or k < 4
                 c = gen_physics(rng, cls, exact, impl)
                 exact = c["exact"]
+                forced = (["zero", "parallel", "perp"] + (["beam_parallel"] if cls == "BeamEmissionMultiplet" else []))
+                if k < len(forced) and cls in POLARISED + ("BeamEmissionMultiplet",):
+                    force_degenerate(rng, c, forced[k])
                 m = atomic_weight(impl, c)
                 T = orc.Tabs()
                 W = orc.Walk(T, K, fr(s2f))
@@ -1329,7 +1481,7 @@ def run(ctx):
             nontrivial += int(any(a != b for a, b in zip(out, c.get("smp0") or [0.0] * c["bins"])))
             search_fails += property_failures(impl, W, c, m, out)
     # ---- histories on one live object -----------------------------------------------------------------
-    n_seq = 3 if quick else 30
+    n_seq = 2 if quick else 30
     dist["sequences"] = {"objects": 0, "steps": 0, "spectrum_reused": 0, "mutations": {}}
     for cls in CLASSES:
         for k in range(n_seq):
@@ -1447,7 +1599,7 @@ def run(ctx):
         search_fails.append(dict(b_, claim="an argument form is accepted / rejected as on the reference tree", cls="constructors"))
     # ---- second-order entry points: doppler_shift, thermal_broadening, ZeemanStructure.__call__, StarkFunction ----------
     misc = []
-    for k in range(40 if quick else 400):
+    for k in range(24 if quick else 400):
         exact = k % 2 == 0
         T = orc.Tabs()
         W = orc.Walk(T, K, fr(s2f))
@@ -1477,7 +1629,7 @@ def run(ctx):
         if not abs(dens - ref) <= 1e-12 * ref:
             search_fails.append({"claim": "StarkFunction is the modified Lorentzian normalised on +-50 FWHM", "cls": "StarkFunction",
                                  "x0": x0, "fwhm": fwv, "x": x, "got": dens, "want": ref})
-    dist["second_order_entry_points"] = len(misc) + (40 if quick else 400)
+    dist["second_order_entry_points"] = len(misc) + (24 if quick else 400)
     # ---- support probes: radiance = +inf leaves non-finite values exactly in [start, end) -----------
     probes = []
     ambiguous = 0
@@ -1494,10 +1646,13 @@ def run(ctx):
         probes.append((c, nonfinite))
 
     # ---- validation policy / polarisation setter (model outcome vs implementation, in Coq) -------------------
-    policy = policy_cases(impl, rng, 30 if quick else 400)
+    policy = policy_cases(impl, rng, 20 if quick else 400)
     dist["policy_and_setter_cases"] = len(policy)
+    # ---- add_lorentzian_line with the Gauss-Legendre loop evaluated by the Coq model -----------------------------
+    gq_texts, gq_metas, gq_skipped = gq_lorentz_cases(impl, rng, 4 if quick else 60, K, s2f)
+    dist["lorentz_bins_integrated_by_the_model_loop"] = {"cases": len(gq_texts), "ambiguous_stopping_test_skipped": gq_skipped}
     # ---- GaussianQuadrature through constructor / setter histories -------------------------------------
-    quads, quad_fails = quadrature_cases(impl, rng, 80 if quick else 1200)
+    quads, quad_fails = quadrature_cases(impl, rng, 50 if quick else 1200)
     search_fails += quad_fails
     dist["quadrature"] = {"histories": len(quads), "constructor_rejected": sum(1 for r in quads if not r["ctor_ok"]),
                           "setter_calls": sum(len(r["ops"]) for r in quads), "setter_calls_rejected": sum(sum(r["errs"]) for r in quads),
@@ -1509,6 +1664,27 @@ def run(ctx):
             sp_ = c_.get("integ")
             bump(dist["stark_integrator_routes"], "class default" if sp_ is None else
                  ("reused object" if sp_.get("pool") is not None else ("constructor only" if not sp_["ops"] else "constructor + setters")))
+
+    # ---- collect the background Print Assumptions of the theorems over R -----------------------------------------
+    for th in r_threads:
+        th.join()
+    allowed_prefix = ("PrimInt63.", "Uint63.", "PrimFloat.", "FloatAxioms.", "Float")
+    from common import STDLIB_AXIOMS
+    chunks = []
+    for t in r_theorems:
+        ok_, out_ = r_result.get(t, (False, ""))
+        if ok_:
+            chunks += out_.split("@@THEOREM ")[1:]
+    for ch in chunks:
+        name = ch.split()[0]
+        ax = re.findall(r"^([A-Za-z_][A-Za-z0-9_.']*)\s*$|^([A-Za-z_][A-Za-z0-9_.']*)\s*:", ch.split("Axioms:", 1)[1], re.M) if "Axioms:" in ch else []
+        ax = sorted({a_ or b_ for a_, b_ in ax})
+        ctx.axioms[name] = ax
+        bad = [a_ for a_ in ax if a_ not in STDLIB_AXIOMS and not a_.startswith(allowed_prefix)]
+        ctx.obligation("theorem %s" % name, "theorem", not bad, "axioms: %d (standard-library classical reals, primitive 63-bit integers)%s" % (
+            len(ax), "; NOT ALLOWED: %s" % bad if bad else ""))
+    if len(chunks) != len(r_theorems):
+        ctx.obligation("theorems over R present", "theorem", False, str({t: r_result.get(t, (False, ""))[1][-500:] for t in r_theorems}))
 
     # ---- write the Coq files --------------------------------------------------------------------
     header = ("Require Import Cherab.Common.Qx Cherab.Model.C02_LineShape Cherab.Model.C02_Check.\nOpen Scope Q_scope.\n"
@@ -1528,8 +1704,10 @@ def run(ctx):
             c, m, T, comps, out = cases[ci]
             body.append(case_text(j, c, m, T, comps, out, K, sqrt2))
         rs = "; ".join("r%d" % j for j in range(len(ids)))
+        ks = "; ".join("k%d" % j for j in range(len(ids)))
         txt = header + "\n".join(body) + ("\nDefinition results : list bool := map agrees [%s].\nEval vm_compute in (failing results).\n"
-                                          "Eval vm_compute in (let u := maxusage [%s] in (Qnum u, Zpos (Qden u))).\n" % (rs, rs))
+                                          "Eval vm_compute in (let u := maxusage [%s] in (Qnum u, Zpos (Qden u))).\n"
+                                          "Eval vm_compute in (failing [%s]).\n" % (rs, rs, ks))
         files.append((ctx.write_gen("cases_%03d.v" % si, txt), ids, "values"))
     if probes:
         per = 250
@@ -1547,6 +1725,11 @@ def run(ctx):
                + "Definition results : list bool := [\n  " + ";\n  ".join(quad_text(r) for r in chunk)
                + "].\nEval vm_compute in (failing results).\n")
         files.append((ctx.write_gen("quadrature_%03d.v" % (si // per), txt), list(range(si, si + len(chunk))), "quad"))
+    for si in range(0, len(gq_texts), 6):
+        chunk = gq_texts[si:si + 6]
+        txt = (header.replace("Cherab.Model.C02_Check.", "Cherab.Model.C02_Check Cherab.Model.C02_Quadrature.")
+               + "Definition results : list bool := [\n  " + ";\n  ".join(chunk) + "].\nEval vm_compute in (failing results).\n")
+        files.append((ctx.write_gen("gqloop_%03d.v" % (si // 6), txt), list(range(si, si + len(chunk))), "gq"))
     for si in range(0, len(policy), 300):
         chunk = policy[si:si + 300]
         txt = (header.replace("Cherab.Model.C02_Check.", "Cherab.Model.C02_Check Cherab.Model.C02_Policy.\nFrom Coq Require Import String.")
@@ -1558,22 +1741,28 @@ def run(ctx):
         files.append((ctx.write_gen("misc_%03d.v" % (si // 250), txt), list(range(si, si + len(chunk))), "misc"))
     ctx.log("generated %d value cases, %d support probes (%d ambiguous skipped); running coqc" % (len(cases), len(probes), ambiguous))
     res = coqc_many([f for f, _, _ in files], timeout=1500)
-    diff_cases, diff_probes, diff_quads, diff_misc, diff_policy = [], [], [], [], []
+    diff_cases, diff_probes, diff_quads, diff_misc, diff_policy, diff_gq = [], [], [], [], [], []
     max_usage = 0.0
+    n_keycheck = 0
     for f, ids, kind in files:
         ok, out = res[f]
         vals = parse_evals(out) if ok else []
-        good = ok and len(vals) == (2 if kind == "values" else 1)
+        good = ok and len(vals) == (3 if kind == "values" else 1)
         failing = parse_zlist(vals[0]) if good else []
         if good and kind == "values":
             mu = re.match(r"\(\s*\(?(-?\d+)\)?%?Z?\s*,\s*\(?(\d+)\)?%?Z?\s*\)", vals[1])
             if mu:
                 max_usage = max(max_usage, int(mu.group(1)) / int(mu.group(2)))
+            missing_keys = parse_zlist(vals[2])
+            n_keycheck += len(ids)
+            if missing_keys:
+                ctx.broken.append("oracle-key walk deviates from the model in %s, local cases %s (levels 1-2 keys computed by Coq are "
+                                  "missing from the tables)" % (os.path.basename(f), missing_keys))
         ctx.obligation("correspondence %s (%d cases)" % (os.path.basename(f), len(ids)), "correspondence",
                        good and not failing, out if not good else "DIFF at local indices %s" % failing)
         if not good:
             ctx.broken.append("coqc failed on %s: %s" % (f, out[-600:]))
-        {"values": diff_cases, "support": diff_probes, "quad": diff_quads, "misc": diff_misc, "policy": diff_policy}[kind].extend(ids[i] for i in failing)
+        {"values": diff_cases, "support": diff_probes, "quad": diff_quads, "misc": diff_misc, "policy": diff_policy, "gq": diff_gq}[kind].extend(ids[i] for i in failing)
     ctx.log("correspondence: %d value cases (%d disagree), %d support probes (%d disagree)" % (
         len(cases), len(diff_cases), len(probes), len(diff_probes)))
 
@@ -1627,6 +1816,10 @@ def run(ctx):
         ctx.violation(key, "%s: %s" % (sf["cls"], sf["claim"]), sf, found=True)
         if len(seen) >= 6:
             break
+    for gi in diff_gq[:3]:
+        ctx.violation("c02:add_lorentzian_line:gauss-legendre-loop",
+                      "add_lorentzian_line: a bin differs from the model that evaluates GaussianQuadrature's loop over StarkFunction "
+                      "(2^-40 relative)", {"case": gq_metas[gi]}, found=True)
     for pi_ in diff_policy[:3]:
         ctx.violation("c02:policy:" + policy[pi_].split()[0] + ":" + policy[pi_].split()[1].strip("("),
                       "constructor validation / polarisation setter: the implementation accepts, rejects or reports another state than "
@@ -1679,6 +1872,8 @@ def run(ctx):
     ctx.coverage["compared_in_coq"] = {
         "spectrum bins (classes, live objects, add_gaussian_line, add_lorentzian_line)": "|R|/delta (2^-47 + 2^-50 W/width) per component + 2^-13 of the Stark part",
         "bins written (radiance = +inf probe)": "exact",
+        "oracle keys of levels 1-2 (sqrt of |dir|^2, |B|^2, T e/(m amu), beam speed; pow of ne, te, ts; then sqrt of 1+beta^2 ts^(2 gamma), "
+        "|v x B|^2)": "recomputed by Coq from the inputs and looked up: exact (%d cases)" % n_keycheck,
         "oracle tables": "sqrt entries by squaring (2^-50), erf in [-1,1], erf/sqrt/log/exp tables monotone in their keys (1 ulp)",
         "GaussianQuadrature orders / ValueErrors after setter histories": "exact", "polynomial integrals": "2^-40 of sum|c_k|M^k|b-a|",
         "doppler_shift, thermal_broadening": "2^-48 relative", "ZeemanStructure.__call__": "wavelengths exact, ratios 2^-50",
